@@ -41,6 +41,11 @@ def u128(e):
     return ("128", BASE128 + (e,))
 
 
+def u128x(a, b, c, d, e):
+    """arbitrary 128 bit UUID a-b-c-d-e"""
+    return ("128", (a, b, c, d, e))
+
+
 AUTO = ("auto",)
 
 
@@ -460,6 +465,11 @@ add("inclprim", server(svc(S16[0], ch(C16[0], b8())), svc(S16[1], inc(S16[0]), c
 # long values and a large server MTU: the 8 bit pair length of Read By Type (value truncated to 253 octets)
 add("bigval", server(svc(S16[0], ch(C16[0], ("arr", 250)), ch(C16[0], ("arr", 253)), ch(C16[0], ("arr", 254)), ch(C16[0], ("arr", 300)), ch(C16[1], ("arr", 255)), ch(C128[0], ("arr", 256))),
                      mtu=512), C02="quick")
+# 128 bit service UUIDs whose little endian encoding starts / ends with the encoding of a 16 bit service UUID of the same server
+add("fbtvpre", server(svc(S16[0], ch(C16[0], b8())), svc(u128x(0x8C8B4094, 0x0DE2, 0x499F, 0xA28A, 0x4EED5BC70000 | S16[0][1]), ch(C16[1], b8(1))),
+                      svc(u128x((S16[0][1] << 16) | 0x4094, 0x0DE2, 0x499F, 0xA28A, 0x4EED5BC73C55), ch(C16[2], b8(2))),
+                      svc(u128x((S16[1][1] << 16) | 0x4094, 0x0DE2, 0x499F, 0xA28A, 0x4EED5BC70000 | S16[1][1]), ch(C16[3], b8(3)), secondary=True),
+                      svc(S16[1], ch(C16[4], b8(4)))), C03="quick", C04="thorough")
 # nested includes: an included service that has include declarations itself (with and without characteristics in between)
 add("nest16", server(svc(S16[0], ch(C16[0], b8()), secondary=True), svc(S16[1], inc(S16[0]), ch(C16[1], b8(1)), secondary=True), svc(S16[2], inc(S16[0]), secondary=True),
                      svc(S16[3], inc(S16[1]), inc(S16[2]), ch(C16[2], b8(2)))), C04="quick", C03="thorough")
